@@ -107,6 +107,7 @@ fn check_gmtime_t(_cyc: &Cycle, c: &Civil, t: i64, s: i64, ns: u32, with_dt: boo
         Err(e) => return Err((json!("Ok or OutOfRange"), json!(err_name(&e)))),
     }
     if with_dt {
+        check_total(_cyc, t as i128 * 1_000_000_000 + ns as i128)?;
         match DateTime::from_timespec(t, ns, TimeZoneRef::utc()) {
             Ok(d) => {
                 let good = exp_ok
@@ -134,6 +135,68 @@ fn check_gmtime_t(_cyc: &Cycle, c: &Civil, t: i64, s: i64, ns: u32, with_dt: boo
         }
     }
     Ok(dg)
+}
+
+/// the same conversion entered through a total nanosecond count (i128): floor split, then exactly C01's contract
+fn check_total(cyc: &Cycle, total: i128) -> Result<(), (Value, Value)> {
+    let secs = refmodel::cal::floor_div128(total, 1_000_000_000);
+    let ns = total.rem_euclid(1_000_000_000) as u32;
+    let exp: Option<(Civil, u8, u8, u8)> = if secs >= i64::MIN as i128 && secs <= i64::MAX as i128 {
+        let (c, h, mi, se) = cyc.gmtime(secs as i64);
+        if in_i32(c.year) {
+            Some((c, h, mi, se))
+        } else {
+            None
+        }
+    } else {
+        None
+    };
+    match (UtcDateTime::from_total_nanoseconds(total), &exp) {
+        (Ok(u), Some((c, h, mi, se))) => {
+            let good = u.year() as i64 == c.year && u.month() == c.month && u.month_day() == c.mday && u.hour() == *h && u.minute() == *mi && u.second() == *se && u.nanoseconds() == ns && u.week_day() == c.wday && u.year_day() == c.yday && u.unix_time() as i128 == secs;
+            if good {
+                Ok(())
+            } else {
+                Err((json!({"year":c.year,"month":c.month,"mday":c.mday,"h":h,"m":mi,"s":se,"ns":ns}), json!(format!("{u:?}"))))
+            }
+        }
+        (Err(TzError::OutOfRange), None) => Ok(()),
+        (Ok(u), None) => Err((json!("Err(OutOfRange)"), json!(format!("{u:?}")))),
+        (Err(e), Some((c, _, _, _))) => Err((json!({"year":c.year,"month":c.month,"mday":c.mday}), json!(err_name(&e)))),
+        (Err(e), None) => Err((json!("Err(OutOfRange)"), json!(err_name(&e)))),
+    }
+}
+
+/// totals whose second count equals an in-range instant modulo 2^m (a lossy recombination of a split division, a narrowing
+/// cast): (k x 2^m + t) x 10^9 + ns and k x 2^m + t x 10^9 + ns for every m, small k, boundary t
+fn sweep_wrap_totals(cyc: &Cycle, rec: &Recorder) -> Tally {
+    let mut tl = Tally::default();
+    let ts: [i64; 9] = [0, 1, -1, 86_400, -86_400, 951_868_800, 1_700_000_000, MIN_UNIX_TIME, MAX_UNIX_TIME];
+    let mut totals: Vec<i128> = vec![];
+    for m in 20..=126u32 {
+        for k in [-3i128, -2, -1, 1, 2, 3] {
+            for &t in &ts {
+                for ns in [0i128, 1, 999_999_999] {
+                    if let Some(v) = k.checked_mul(1i128 << m).and_then(|x| x.checked_add(t as i128)).and_then(|x| x.checked_mul(1_000_000_000)).and_then(|x| x.checked_add(ns)) {
+                        totals.push(v);
+                    }
+                    if let Some(v) = k.checked_mul(1i128 << m).and_then(|x| x.checked_add(t as i128 * 1_000_000_000 + ns)) {
+                        totals.push(v);
+                    }
+                }
+            }
+        }
+    }
+    for total in totals {
+        tl.evals += 1;
+        match guard(|| check_total(cyc, total)) {
+            Ok(Ok(())) => {}
+            Ok(Err((e, g))) => rec.violation("wrap_totals", json!({"kind":"total","total":total.to_string()}), e, g),
+            Err(m) => rec.violation("wrap_totals", json!({"kind":"total","total":total.to_string()}), json!("no panic"), json!(m)),
+        }
+    }
+    rec.sub("wrap_totals", json!({"evaluations": tl.evals}));
+    tl
 }
 
 /// C02 check of one (date, second): constructor accepts, unix_time exact, both round trips, second 60.
@@ -294,7 +357,7 @@ fn units_for(cyc: &Cycle, thorough: bool) -> Vec<Unit> {
 
 /// day windows around numeric thresholds of the three quantities an implementation may narrow: the year (+-2^k, +-10^k),
 /// the day count since the epoch (+-2^k) and the second count (+-2^k): (first day, number of days)
-fn threshold_windows(cyc: &Cycle, thorough: bool) -> Vec<(i64, i64)> {
+pub fn threshold_windows(cyc: &Cycle, thorough: bool) -> Vec<(i64, i64)> {
     let min_day = cyc.day_of(i32::MIN as i64, 1, 1);
     let max_day = cyc.day_of(i32::MAX as i64, 12, 31);
     let mut v: Vec<(i64, i64)> = vec![];
@@ -316,16 +379,39 @@ fn threshold_windows(cyc: &Cycle, thorough: bool) -> Vec<(i64, i64)> {
             years.push(base - (1i64 << k));
         }
     }
+    // years at which a narrower day or month count would overflow: 2^k / 365, 2^k / 366, 2^k / 12, relative to common epochs
+    for k in [15u32, 16, 31, 32] {
+        for c in [12i64, 365, 366] {
+            for e in [0i64, 1900, 1970, 2000] {
+                for adj in [0i64, 1] {
+                    years.push(e + (1i64 << k) / c + adj);
+                    years.push(e - (1i64 << k) / c - adj);
+                }
+            }
+        }
+    }
+    years.sort();
+    years.dedup();
     for y in years {
         if y - 1 >= i32::MIN as i64 && y + 1 <= i32::MAX as i64 {
             v.push((cyc.day_of(y - 1, 12, 1), if thorough { 31 + 366 + 60 } else { 31 + 60 }));
         }
     }
-    for k in 6..=40 {
-        for sgn in [1i64, -1] {
-            let d = sgn * (1i64 << k);
-            if d - 40 >= min_day && d + 40 <= max_day {
-                v.push((d - 40, 81));
+    // day counts relative to the epochs an implementation may count from: 1970-01-01, 2000-03-01, 2000-01-01, 0000-03-01,
+    // 0001-01-01, 0000-01-01, 1900-01-01, 1601-01-01, the Julian Day epoch
+    let epochs: [i64; 9] = [0, 11017, 10957, -719468, -719162, -719528, -25567, -134774, -2440588];
+    for e in epochs {
+        for k in 6..=40 {
+            for sgn in [1i64, -1] {
+                for adj in [-1i64, 0] {
+                    // 2^k and 2^k - 1 (the largest value of a k-bit field) as day counts since the epoch
+                    let d = e + sgn * ((1i64 << k) + adj);
+                    if d - 400 >= min_day && d + 400 <= max_day {
+                        // the year that follows an overflowing day count starts within 366 days
+                        let w = if e == 0 && adj == 0 { if k >= 16 { 400 } else { 40 } } else { 3 };
+                        v.push((d - w, 2 * w + 1));
+                    }
+                }
             }
         }
     }
@@ -415,6 +501,18 @@ fn sweep_out_of_range(cyc: &Cycle, rec: &Recorder, thorough: bool) -> Tally {
         let p = 1i64 << k;
         ranges.push((p - 2, p.saturating_add(2)));
         ranges.push((-p - 2, -p + 2));
+    }
+    // second, minute and hour counts relative to other epochs (2000-03-01, 2000-01-01, 0000-03-01, 0001-01-01, 1900, 1601)
+    for e in [951_868_800i64, 946_684_800, -62_162_035_200, -62_135_596_800, -2_208_988_800, -11_644_473_600] {
+        for unit in [1i64, 60, 3600] {
+            for k in 20..62 {
+                if let Some(p) = (1i64 << k).checked_mul(unit) {
+                    for c in [e.checked_add(p), e.checked_sub(p)].into_iter().flatten() {
+                        ranges.push((c.saturating_sub(2), c.saturating_add(2)));
+                    }
+                }
+            }
+        }
     }
     ranges.push((951868800 - 100_000, 951868800 + 100_000));
     ranges.push((i64::MIN + 951868800 - 1000, i64::MIN + 951868800 + 1000));
@@ -664,6 +762,7 @@ pub fn run(args: &Args) -> i32 {
         total = total.merge(sweep_years(&cyc, &rec, thorough));
     } else {
         total = total.merge(sweep_out_of_range(&cyc, &rec, thorough));
+        total = total.merge(sweep_wrap_totals(&cyc, &rec));
     }
     rec.add(total.evals, total.nontrivial);
     rec.add_model(total.states, total.steps, total.evals);
@@ -711,6 +810,16 @@ pub fn replay(case: &Value, args: &Args) -> i32 {
             for d in s..s + n {
                 if let Err(m) = guard(|| run_chunk(&cyc, c02, d, 1, secs, &rec, "replay")) {
                     rec.violation("replay", json!({"kind":"chunk","start_day":d,"n_days":1,"secs":secs.name(),"c02":c02}), json!("no panic"), json!(m));
+                }
+            }
+        }
+        "total" => {
+            let total: i128 = case["total"].as_str().unwrap().parse().unwrap();
+            for _ in 0..2 {
+                match guard(|| check_total(&cyc, total)) {
+                    Ok(Ok(())) => {}
+                    Ok(Err((e, g))) => rec.violation("replay", case.clone(), e, g),
+                    Err(m) => rec.violation("replay", case.clone(), json!("no panic"), json!(m)),
                 }
             }
         }
